@@ -284,6 +284,12 @@ class Interp:
             return ('slice', self.new_len("len(%s)" % hint, ctx))
         return self.opaque()
 
+    def _is_enum(self, adt):
+        a = self.facts.adts.get(adt)
+        if a is not None:
+            return a.get("kind") == "Enum"
+        return adt in ("std::ops::ControlFlow", "std::result::Result", "std::task::Poll", "futures_util::future::Either")
+
     def slice_len(self, v, ctx):
         if isinstance(v, tuple) and v[0] == 'slice':
             return v[1]
@@ -331,6 +337,8 @@ class Interp:
                 name = el.get("n", el["f"])
                 if isinstance(v, tuple) and v[0] in ('some', 'ok') and el["f"] == 0:
                     v = v[1]
+                elif isinstance(v, tuple) and v[0] == 'enum' and isinstance(el["f"], int) and el["f"] < len(v[2]):
+                    v = v[2][el["f"]]
                 elif v == ('self',):
                     if name not in heap:
                         ty = ty_str(el.get("ty", ""))
@@ -385,7 +393,7 @@ class Interp:
             if (r.get("bk") == "mut" or k == "rawptr") and not any("deref" in e for e in p.get("p", [])):
                 # `&mut local`: a callee (or a write through the reference) may change the local behind our back
                 st["borrowed"] = st.get("borrowed", frozenset()) | {p["l"]}
-            if isinstance(v, tuple) and v[0] in ('fieldref', 'self', 'slice', 'array', 'nvit', 'some', 'none'):
+            if isinstance(v, tuple) and v[0] in ('fieldref', 'self', 'slice', 'array', 'nvit', 'some', 'none', 'enum', 'ok', 'tuple'):
                 return v
             if isinstance(v, Lin):
                 return v            # &usize: read-only views of integers are modelled by value
@@ -459,6 +467,8 @@ class Interp:
                     return ('range', Lin(0), ops[0])
                 if adt.endswith("option::Option"):
                     return ('some', ops[0]) if vn == "Some" and ops else ('none',)
+                if "vi" in r and self._is_enum(adt):
+                    return ('enum', int(r["vi"]), tuple(ops))      # any other enum value: variant index + payload
                 return self.opaque()
             if r["ak"] == "tuple":
                 return ('tuple', ops)
@@ -471,6 +481,8 @@ class Interp:
                 return Lin(1)
             if v == ('none',):
                 return Lin(0)
+            if isinstance(v, tuple) and v[0] == 'enum':
+                return Lin(v[1])
             return self.opaque()
         if k == "un":
             v = self.operand(st, r["a"])
@@ -860,6 +872,13 @@ class Interp:
             # lossless integer conversion (From is only implemented for widenings)
             self.store(st, t["dest"], args[0])
             return None
+        if short in ("is_break", "is_continue", "is_some", "is_none", "is_ok", "is_err") and len(args) == 1 and isinstance(args[0], tuple):
+            a0 = args[0]
+            vi = a0[1] if a0[0] == 'enum' else (1 if a0[0] == 'some' else 0 if a0[0] == 'none' else 0 if a0[0] == 'ok' else None)
+            if vi is not None and a0[0] in ('enum', 'some', 'none', 'ok'):
+                truth = {"is_break": vi == 1, "is_continue": vi == 0, "is_some": vi == 1, "is_none": vi == 0, "is_ok": vi == 0, "is_err": vi == 1}[short]
+                self.store(st, t["dest"], ('bool', int(truth)))
+                return None
         L0 = self.slice_len(args[0], ctx) if args else None
         if short == "len" and len(args) == 1:
             if L0 is not None:
